@@ -68,26 +68,40 @@ def _imp_once():
     from insights.parsers import (get_active_lines, split_kv_pairs, unsplit_lines, optlist_to_dict,
                                   parse_fixed_table, parse_delimited_table, keyword_search)
     from insights.core import IniConfigFile
+
+    class NoValueIni(IniConfigFile):
+        """What the class docstring tells subclasses to do to enable keys without values."""
+        def parse_content(self, content):
+            super(NoValueIni, self).parse_content(content, allow_no_value=True)
     return (get_active_lines, split_kv_pairs, unsplit_lines, optlist_to_dict, parse_fixed_table,
-            parse_delimited_table, keyword_search, IniConfigFile)
+            parse_delimited_table, keyword_search, IniConfigFile, NoValueIni)
 
 
 # =====================================================================================================
 # per-case checkers: check_<kind>(case) -> (violations [(clause, expected, observed, features)], nontrivial, outcome)
 # =====================================================================================================
 
+def _call(f, *a, **k):
+    try:
+        return f(*a, **k)
+    except Exception as ex:
+        return "raised %s" % type(ex).__name__
+
+
 def check_fixed(case):
     parse_fixed_table = _imp()[4]
     lines = T.fixed_render(case)
     exp = T.fixed_expected(case)
-    try:
-        got = parse_fixed_table(lines, **T.fixed_kwargs(case))
-    except Exception as ex:
-        got = "raised %s" % type(ex).__name__
+    got = _call(parse_fixed_table, list(lines), **T.fixed_kwargs(case))
+    again = _call(parse_fixed_table, list(lines), **T.fixed_kwargs(case))   # same arguments, same process: must not depend on the first call
     vio = []
-    if got != exp:
+    if not T.strict_eq(got, exp):
         vio.append(("fixed:rows-equal-rendered-cells", exp, got,
                     {"later_header_substring_of_earlier": T.fixed_header_ambiguity(case)}))
+    elif any(list(r) != T.keys_of(case) for r in got):
+        vio.append(("fixed:cells-in-header-order", T.keys_of(case), [list(r) for r in got], {}))
+    if again != got:
+        vio.append(("fixed:second-identical-call-differs", got, again, {}))
     return vio, (len(case["headers"]) >= 2 and bool(exp)), "fixed:c%d:r%d:%s" % (len(case["headers"]), len(exp), not vio)
 
 
@@ -95,41 +109,44 @@ def check_delim(case):
     parse_delimited_table = _imp()[5]
     lines = T.delim_render(case)
     exp = T.delim_expected(case)
-    try:
-        got = parse_delimited_table(lines, **T.delim_kwargs(case))
-    except Exception as ex:
-        got = "raised %s" % type(ex).__name__
+    got = _call(parse_delimited_table, list(lines), **T.delim_kwargs(case))
+    again = _call(parse_delimited_table, list(lines), **T.delim_kwargs(case))
     vio = []
-    if got != exp:
+    if not T.strict_eq(got, exp):
         vio.append(("delimited:rows-equal-rendered-cells", exp, got, {}))
+    else:
+        raw = case.get("raw_line_key")
+        ks = T.keys_of(case)
+        order = [[k for k in r if k != raw] for r in got]
+        if any(o != ks[:len(o)] for o in order):
+            vio.append(("delimited:cells-in-header-order", ks, order, {}))
+    if again != got:
+        vio.append(("delimited:second-identical-call-differs", got, again, {}))
     return vio, bool(exp), "delim:c%d:r%d:%s" % (len(case["headers"]), len(exp), not vio)
 
 
 def check_kv(case):
     split_kv_pairs = _imp()[1]
-    exp, orders = T.kv_ref(case)
-    try:
-        got = split_kv_pairs(list(case["lines"]), comment_char=case["comment_char"], filter_string=case["filter_string"],
-                             split_on=case["split_on"], use_partition=case["use_partition"], ordered=case["ordered"])
-    except Exception as ex:
-        got = "raised %s" % type(ex).__name__
+    exp, order = T.kv_ref(case)
+    got = _call(split_kv_pairs, list(case["lines"]), comment_char=case["comment_char"], filter_string=case["filter_string"],
+                split_on=case["split_on"], use_partition=case["use_partition"], ordered=case["ordered"])
     vio = []
-    if not isinstance(got, dict) or dict(got) != exp:
-        vio.append(("kv:pairs-equal-rendered", exp, got if not isinstance(got, dict) else dict(got), {}))
-    elif case["ordered"] and list(got.keys()) not in orders:
-        vio.append(("kv:order-preserved", orders, list(got.keys()), {}))
+    if not isinstance(got, dict) or not T.strict_eq(dict(got), exp):
+        blank_kept = bool(case["comment_char"] is None and case["use_partition"] and isinstance(got, dict)
+                          and any(not l.strip() for l in case["lines"]) and dict(got) == dict(exp, **{"": ""}))
+        vio.append(("kv:pairs-equal-rendered", exp, got if not isinstance(got, dict) else dict(got),
+                    {"blank_line_kept_without_comment_char": blank_kept}))
+    elif case["ordered"] and list(got.keys()) != order:
+        vio.append(("kv:order-preserved", order, list(got.keys()), {}))
     return vio, (bool(exp) and len(case["lines"]) > len(exp)), "kv:%d:%s" % (len(exp), not vio)
 
 
 def check_active(case):
     get_active_lines = _imp()[0]
     exp = T.active_ref(case["lines"], case["comment_char"])
-    try:
-        got = get_active_lines(list(case["lines"]), case["comment_char"])
-    except Exception as ex:
-        got = "raised %s" % type(ex).__name__
+    got = _call(get_active_lines, list(case["lines"]), case["comment_char"])
     vio = []
-    if got != exp:
+    if not T.strict_eq(got, exp):
         vio.append(("active:lines-without-comments-and-blanks", exp, got, {}))
     return vio, (bool(exp) and len(exp) < len(case["lines"])), "active:%d:%s" % (len(exp), not vio)
 
@@ -138,12 +155,9 @@ def check_unsplit(case):
     unsplit_lines = _imp()[2]
     lines = T.unsplit_render(case)
     exp = T.unsplit_expected(case)
-    try:
-        got = list(unsplit_lines(lines, cont_char=case["cont_char"], keep_cont_char=case["keep"]))
-    except Exception as ex:
-        got = "raised %s" % type(ex).__name__
+    got = _call(lambda: list(unsplit_lines(lines, cont_char=case["cont_char"], keep_cont_char=case["keep"])))
     vio = []
-    if got != exp:
+    if not T.strict_eq(got, exp):
         vio.append(("unsplit:logical-lines-recovered", exp, got, {}))
     return vio, len(lines) > len(exp), "unsplit:%d:%s" % (len(exp), not vio)
 
@@ -152,12 +166,9 @@ def check_optlist(case):
     optlist_to_dict = _imp()[3]
     text = T.optlist_render(case)
     exp = T.optlist_expected(case)
-    try:
-        got = optlist_to_dict(text, opt_sep=case["opt_sep"], kv_sep=case["kv_sep"], strip_quotes=case["strip_quotes"])
-    except Exception as ex:
-        got = "raised %s" % type(ex).__name__
+    got = _call(optlist_to_dict, text, opt_sep=case["opt_sep"], kv_sep=case["kv_sep"], strip_quotes=case["strip_quotes"])
     vio = []
-    if got != exp:
+    if not T.strict_eq(got, exp):          # strict: a present name maps to True, not to 1
         feats = {"empty_value_with_strip_quotes": bool(
             case["strip_quotes"] and case["kv_sep"] is not None and any(v == "" for _, v in case["opts"])
             and got == "raised IndexError")}
@@ -165,26 +176,29 @@ def check_optlist(case):
     return vio, len(case["opts"]) > 1, "optlist:%d:%s" % (len(exp), not vio)
 
 
-INI_QUERY_SPELLINGS = ["key", "Key", "KEY", "other", "OTHER", "two words", "absent"]
+INI_QUERY_SPELLINGS = ["key", "Key", "KEY", "other", "OTHER", "two words", "key2", "KEY2", "ke", "absent"]
 
 
 def check_ini(case):
-    IniConfigFile = _imp()[7]
+    imp = _imp()
+    allow = bool(case.get("allow_no_value"))
+    cls = imp[8] if allow else imp[7]
     from harness.ctx import make_context
     doc = case["doc"]
     lines = M.render(doc)
-    view = M.View(doc)
-    loose = M.has_continuation(doc)
+    view = M.View(doc, allow)
 
-    def same(exp, obs):
-        return exp == obs or (loose and isinstance(obs, str) and M.norm(exp) == M.norm(obs))
-    nontrivial = (any(b["name"].strip() == M.DEFAULT for b in doc["blocks"]) or loose or bool(doc.get("pre"))
+    def same(exp, obs, loose):
+        if type(exp) is type(obs) and exp == obs:
+            return True
+        return bool(loose and isinstance(obs, str) and isinstance(exp, str) and M.norm(exp) == M.norm(obs))
+    nontrivial = (any(b["name"].strip() == M.DEFAULT for b in doc["blocks"]) or M.has_continuation(doc) or bool(doc.get("pre"))
                   or any(e[0] == "f" for b in doc["blocks"] for e in b["entries"])
                   or any(len(set(n)) != len(n) for n in
                          [[e[1].lower() for e in b["entries"] if e[0] == "o"] for b in doc["blocks"]]))
     vio = []
     try:
-        p = IniConfigFile(make_context(lines, path="/etc/c15.ini"))
+        p = cls(make_context(lines, path="/etc/c15.ini"))
     except Exception as ex:
         vio.append(("ini:document-accepted", "parsed", "raised %s: %s" % (type(ex).__name__, str(ex)[:120]), {}))
         return vio, nontrivial, "ini:rejected"
@@ -197,7 +211,7 @@ def check_ini(case):
 
     # sections(): every section, in document order, excluding exactly DEFAULT
     got_secs = guarded(p.sections)
-    if got_secs != view.section_names:
+    if not T.strict_eq(got_secs, view.section_names):
         contains = [s for s in view.section_names if M.DEFAULT in s]
         explained = bool(contains) and got_secs == [s for s in view.section_names if M.DEFAULT not in s]
         vio.append(("ini:sections-in-document-order", view.section_names, got_secs,
@@ -207,15 +221,26 @@ def check_ini(case):
     for s in view.section_names + ["absent"]:
         for q in (s, " %s " % s):
             g = guarded(p.__contains__, q)
-            if g != (s != "absent"):
+            if g is not (s != "absent"):
                 bad_in.append([q, g])
     if bad_in:
         vio.append(("ini:contains", "True for every rendered section, False otherwise", bad_in, {}))
     # defaults()
     got_d = guarded(p.defaults)
-    if not isinstance(got_d, dict) or set(got_d) != set(view.defaults) or \
-            any(not same(view.defaults[k], got_d[k]) for k in view.defaults):
-        vio.append(("ini:defaults", view.defaults, got_d if not isinstance(got_d, dict) else dict(got_d), {}))
+    if not isinstance(got_d, dict):
+        vio.append(("ini:defaults", view.defaults, got_d, {}))
+    else:
+        got_d = dict(got_d)
+        wrong_d = {}
+        for k in sorted(set(got_d) | set(view.defaults)):
+            e, g = view.defaults.get(k, "<absent>"), got_d.get(k, "<absent>")
+            if not same(e, g, k in view.loose_defaults):
+                f = M.comment_features(doc, M.DEFAULT, k, e, g)
+                w = wrong_d.setdefault(tuple(sorted(f.items())), [{}, {}])
+                w[0][k] = e
+                w[1][k] = g
+        for fv, (e, g) in sorted(wrong_d.items()):
+            vio.append(("ini:defaults", e, g, dict(fv)))
     # items() / get() / has_option()
     wrong = {}       # canonical feature vector -> [expected list, observed list]
     bad_has = []
@@ -231,8 +256,8 @@ def check_ini(case):
             got_items = {}
         for o in sorted(names):
             e, g = exp_items.get(o, "<absent>"), got_items.get(o, "<absent>")
-            if not same(e, g):
-                f = M.option_features(doc, s, o, g)
+            if not same(e, g, o in view.loose[s]):
+                f = M.option_features(doc, s, o, g, e)
                 w = wrong.setdefault(tuple(sorted(f.items())), [[], []])
                 w[0].append(["items", s, o, e])
                 w[1].append(["items", s, o, g])
@@ -242,13 +267,13 @@ def check_ini(case):
             g = guarded(p.get, qs, sp)
             if isinstance(g, tuple):
                 g = "<absent>"
-            if not same(e, g):
-                f = M.option_features(doc, s, o, g)
+            if not same(e, g, o in view.loose[s]):
+                f = M.option_features(doc, s, o, g, e)
                 w = wrong.setdefault(tuple(sorted(f.items())), [[], []])
                 w[0].append(["get", s, sp, e])
                 w[1].append(["get", s, sp, g])
             h = guarded(p.has_option, qs, sp)
-            if h != (o in exp_items):
+            if h is not (o in exp_items):
                 bad_has.append([s, sp, h])
     for fv, (e, g) in sorted(wrong.items()):
         vio.append(("ini:option-values", e, g, dict(fv)))
@@ -256,6 +281,10 @@ def check_ini(case):
         bad_has.append(["absent", "key", "not False"])
     if bad_has:
         vio.append(("ini:has-option", "True exactly for the options visible in the section", bad_has, {}))
+    # the accessors are queries: asking again on the same object gives the same answers
+    if guarded(p.sections) != got_secs or guarded(lambda: dict(p.defaults())) != got_d:
+        vio.append(("ini:answers-stable-across-queries", [got_secs, got_d],
+                    [guarded(p.sections), guarded(lambda: dict(p.defaults()))], {}))
     return vio, nontrivial, "ini:s%d:d%d:%s" % (len(view.section_names), len(view.defaults),
                                                  ",".join(sorted(set(v[0] for v in vio))))
 
@@ -268,6 +297,10 @@ class _Parent(object):
     pass
 
 
+def _known(rows, rkc):
+    return set(k for r in rows for k in r) if rkc else set(rows[0])
+
+
 def check_search(case):
     keyword_search = _imp()[6]
     kwargs = [(k, v) for k, v in case["kwargs"]]
@@ -275,9 +308,11 @@ def check_search(case):
     vio = []
     runs = []                     # (label, rows)
     parent = None
+    prior = None
     if case.get("prior_rows") is not None:
         parent = _Parent()
-        runs.append(("prior", [dict(r) for r in case["prior_rows"]]))
+        prior = [dict(r) for r in case["prior_rows"]]
+        runs.append(("prior", prior))
     rows = [dict(r) for r in case["rows"]]
     if case.get("container") == "attr":
         rows = _Rows(rows)
@@ -302,7 +337,14 @@ def check_search(case):
         except Exception as ex:
             got = "raised %s" % type(ex).__name__
         if got not in acc:
-            vio.append(("search:exactly-the-matching-rows", {label: acc}, {label: got}, {}))
+            feats = {}
+            if prior is not None and label == "rows":
+                # structural fact: the parent was used before for rows with other keys, and the answer is the one
+                # obtained by looking only at the keys of those earlier rows
+                stale = T.search_ref(list(rs), kwargs, _known(prior, rkc))
+                feats["parent_reused_for_rows_with_different_keys"] = bool(
+                    _known(prior, rkc) != _known(list(rs), rkc) and got == stale)
+            vio.append(("search:exactly-the-matching-rows", {label: acc}, {label: got}, feats))
         if acc[0] and len(acc[0]) < len(rs):
             nontrivial = True
         shape = "%d/%d" % (len(acc[0]), len(rs))
